@@ -2,6 +2,7 @@ package main
 
 import (
 	"fmt"
+	"github.com/glowlabs-org/gca-backend/glow"
 	"math"
 	"sync"
 
@@ -208,6 +209,38 @@ func runEquip(c *ctx) error {
 		honoured()
 	}); err != nil {
 		return err
+	}
+	// keys nobody can sign for: 32 bytes that are no point of the curve, and the zero key. A registration of
+	// such a key signed by the temporary key is a registration like any other: it succeeds once and is irreversible
+	// (also after a restart).
+	for {
+		var pk glow.PublicKey
+		c.rng.Read(pk[:])
+		if _, err := glow.PubKeyToAddr(pk); err != nil {
+			s.KR.AddPub("offcurve", pk)
+			break
+		}
+	}
+	s.KR.AddPub("zero", glow.PublicKey{})
+	for _, k := range []string{"offcurve", "zero"} {
+		k := k
+		if err := regSeq("reg/unusable-key/"+k, func() {
+			s.Register(k, "temp", k)
+			s.Register("gca", "temp", "gca") // refused: already registered
+			honoured()
+			if err := s.Restart(); err != nil {
+				return
+			}
+			s.Register("gca", "temp", "gca") // still refused after the restart
+			s.Register(k, "temp", k)
+			honoured()
+			if err := s.Restart(); err != nil {
+				return
+			}
+			s.Register("gca2", "temp", "gca2")
+		}); err != nil {
+			return err
+		}
 	}
 	nb := 4
 	if c.tier == "thorough" {
